@@ -18,8 +18,24 @@
 #include "matrix_big.h"
 #include "matrix_small.h"
 #include "matrix_tri.h"
+#include <dlfcn.h>
 using namespace SimTK;
 using namespace vh;
+
+// The fixed-size inverse() of sizes >= 4 is header-inline code that calls LAPACK's getrf/getri
+// directly. The harness link line names only the SimTK libraries (LAPACK is their private
+// dependency), so the eight symbols are defined here as forwarders to the next definition in
+// the process (the real LAPACK already loaded by libSimTKcommon).
+extern "C" {
+#define MX_GETRF(name, T) void name(const int& m, const int& n, T* a, const int& lda, int* ipiv, int& info) { \
+    typedef void (*F)(const int&, const int&, T*, const int&, int*, int&); static F f = (F)dlsym(RTLD_NEXT, #name); \
+    if (!f) { fprintf(stderr, "mon_matrix: cannot resolve %s\n", #name); abort(); } f(m, n, a, lda, ipiv, info); }
+#define MX_GETRI(name, T) void name(const int& n, T* a, const int& lda, const int* ipiv, T* work, const int& lwork, int& info) { \
+    typedef void (*F)(const int&, T*, const int&, const int*, T*, const int&, int&); static F f = (F)dlsym(RTLD_NEXT, #name); \
+    if (!f) { fprintf(stderr, "mon_matrix: cannot resolve %s\n", #name); abort(); } f(n, a, lda, ipiv, work, lwork, info); }
+MX_GETRF(sgetrf_, float) MX_GETRF(dgetrf_, double) MX_GETRF(cgetrf_, std::complex<float>) MX_GETRF(zgetrf_, std::complex<double>)
+MX_GETRI(sgetri_, float) MX_GETRI(dgetri_, double) MX_GETRI(cgetri_, std::complex<float>) MX_GETRI(zgetri_, std::complex<double>)
+}
 
 template <class B> static void runBig(Ctx& c, Rng& r, bool thorough) {
     mx::Engine<B> e(c, r);
@@ -45,8 +61,8 @@ int main(int argc, char** argv) {
         case 3: runBig<float>(c, r, thorough); break;
         case 4: runBig<SpatialVec>(c, r, thorough); break;
         case 5: runBig<Real>(c, r, thorough); break;
-        case 6: mx::runSmallCase(c, r, i / 8); break;
-        default: mx::runScalarCase(c, r, i / 8); break;
+        case 6: mx::runSmallCase(c, r, i / 8 + (long)(c.args.seed % 22)); break;
+        default: mx::runScalarCase(c, r, i / 8 + (long)(c.args.seed % 12)); break;
         }
     });
 }
